@@ -143,3 +143,26 @@ def fault_then_expiry(rng, n):
         replies = [fault] + ([[]] * 2 if not fault else []) + [[(0, 0, 77)]] * 6
         out.append(([0] * 8, [[(0, 1, 0)]] * 8, replies, ops))
     return out
+
+
+def reauth_fault_then_recover(rng, n):
+    """an authenticated V3 session; the key expires (12 h) or the connection is dropped; the handshake of the NEXT exchange meets one
+    transient fault (error packet / unverifiable reply / data in its place / silence on every attempt); afterwards the appliance
+    answers promptly: the exchanges after the failed one must succeed with the credentials given at the start"""
+    out = []
+    for _ in range(n):
+        fault = rng.choice([[(0, 3, 0)], [(0, 2, 0)], [(0, 0, 9)], []])
+        nfault = 3 if not fault else 1                      # silence: all three attempts of the handshake
+        how = rng.choice(["expiry", "expiry", "drop"])
+        ops = [(2, 1, 3), (1, rng.randrange(1, 200), 3)]
+        if how == "expiry":
+            ops += [(5, H12 + 1000, 0)]
+            replies = [[(0, 0, 71)]]
+        else:
+            ops += [(1, rng.randrange(1, 200), 3), (5, 700, 0)]          # answered with garbage: the connection is dropped
+            replies = [[(0, 0, 71)], [(0, 3, 0)]]
+        ops += [(rng.choice([1, 3]), rng.randrange(1, 200), 3 if rng.random() < 0.7 else 0) for _ in range(3)]
+        ops = [(o[0], o[1], 0) if o[0] == 3 else (o[0], o[1], 3) for o in ops[:-3]] + [(o[0], o[1], 3 if o[0] == 1 else 0) for o in ops[-3:]]
+        hs = [[(0, 1, 0)]] + [fault] * nfault + [[(0, 1, 0)]] * 6
+        out.append(([0] * 8, hs, replies + [[(0, 0, rng.randrange(1, 250))] for _ in range(6)], ops))
+    return out
